@@ -141,3 +141,104 @@ theorem lemma_evolves_fields (s s' : Insp) (h1 : s'.regions = s.regions) (h2 : s
     exact hb x hx
 
 end Oslo.Insp
+
+namespace Oslo.Insp
+
+theorem lemma_vhdxAddVds_evolves (s : Insp) (m : Region) (ioff ilen : Nat) (h : SInv s) :
+    Evolves s (vhdxAddVds s m ioff ilen).1 := by
+  have h1 : Evolves s (s.updRegion "metadata" (fun r => { r with length := r.data.length })) := by
+    apply lemma_evolves_trunc
+    intro y hy hn
+    cases hE : y.2.isEnd
+    · rfl
+    · have := ((h.each y hy).2.2.2 hE).2
+      rw [hn] at this
+      exact absurd this (by decide)
+  unfold vhdxAddVds
+  split
+  · exact h1
+  · rename_i s2 hn
+    exact lemma_evolves_trans h1 (lemma_evolves_new _ _ _ _ _ _ _ hn)
+
+theorem lemma_vhdxPP_evolves (s : Insp) (h : SInv s) : Evolves s (vhdxPostProcess s).1 := by
+  unfold vhdxPostProcess
+  split
+  · exact lemma_evolves_refl s
+  · split
+    · split
+      · exact lemma_evolves_refl s
+      · exact lemma_evolves_refl s
+      · split
+        · exact lemma_evolves_refl s
+        · rename_i s' hn
+          exact lemma_evolves_new _ _ _ _ _ _ _ hn
+    · split
+      · split
+        · exact lemma_evolves_refl s
+        · exact lemma_evolves_refl s
+        · split
+          · exact lemma_evolves_refl s
+          · exact lemma_vhdxAddVds_evolves s _ _ _ h
+      · exact lemma_evolves_refl s
+
+theorem lemma_vmdkAddFooter_evolves (s s1 : Insp) (g : Nat) (he : vmdkAddFooter s g = .ok s1) : Evolves s s1 := by
+  unfold vmdkAddFooter at he
+  split at he
+  · split at he
+    · simp at he
+    · rename_i s' hn
+      split at he
+      · simp at he
+      · simp only [Except.ok.injEq] at he
+        subst he
+        exact lemma_evolves_trans (lemma_evolves_new _ _ _ _ _ _ _ hn) (lemma_evolves_fields _ _ rfl rfl rfl)
+  · simp only [Except.ok.injEq] at he
+    subst he
+    exact lemma_evolves_refl s
+
+theorem lemma_vmdkRelocate_evolves (s1 : Insp) (a b : Nat) : Evolves s1 (vmdkRelocate s1 a b).1 := by
+  unfold vmdkRelocate
+  split
+  · exact lemma_evolves_refl _
+  · split
+    · exact lemma_evolves_refl _
+    · split
+      · split
+        · exact lemma_evolves_refl _
+        · rename_i s2 hd
+          split
+          · exact lemma_evolves_delete _ _ _ hd
+          · rename_i s3 hn
+            exact lemma_evolves_trans (lemma_evolves_delete _ _ _ hd) (lemma_evolves_new _ _ _ _ _ _ _ hn)
+      · exact lemma_evolves_refl _
+
+theorem lemma_vmdkPP_evolves (s : Insp) : Evolves s (vmdkPostProcess s).1 := by
+  unfold vmdkPostProcess
+  split
+  · exact lemma_evolves_refl s
+  · split
+    · exact lemma_evolves_refl s
+    · split
+      · exact lemma_evolves_refl s
+      · split
+        · split
+          · split
+            · exact lemma_evolves_refl s
+            · rename_i s' hd
+              exact lemma_evolves_delete _ _ _ hd
+          · exact lemma_evolves_refl s
+        · split
+          · exact lemma_evolves_refl s
+          · split
+            · exact lemma_evolves_refl s
+            · rename_i s1 he
+              exact lemma_evolves_trans (lemma_vmdkAddFooter_evolves _ _ _ he) (lemma_vmdkRelocate_evolves s1 _ _)
+
+theorem lemma_postProcess_evolves (s : Insp) (h : SInv s) : Evolves s (postProcess s).1 := by
+  unfold postProcess
+  split
+  · exact lemma_vhdxPP_evolves s h
+  · exact lemma_vmdkPP_evolves s
+  · exact lemma_evolves_refl s
+
+end Oslo.Insp
